@@ -113,8 +113,11 @@ def run(eng: Engine, ck: Check):
     # cancelled losers are awaited
     canc_nodes = [n for n in eng.cfg(race).nodes if rel(n) and n.kind in ('stmt', 'loop')]
     gath = [x for x in calls_in(race.node) if call_name(x) == 'gather' and isinstance(parent(x), ast.Await)]
-    ck.ob('R-C11-LOSER', race, race.node, 'cancelled attempts are awaited before the winner is returned', bool(gath), 'no awaited gather',
-          construct='losers awaited')
+    cr_ = eng.cfg(race)
+    dominated = bool(gath) and all(any(rel(d) and d.kind in ('stmt', 'loop') for d in cr_.dominators()[n]) for g_ in gath for n in cr_.nodes_for(g_))
+    ck.ob('R-C11-LOSER', race, race.node, 'the losing attempts are cancelled first and then awaited before the winner is returned '
+          '(awaiting an uncancelled loser lets it finish: a second connection is created and dropped on the floor)', dominated,
+          'no awaited gather of the pending attempts, or it is not preceded by their cancellation', construct='losers cancelled then awaited')
     # all winners are kept, the surplus one is disconnected
     res = [x for x in calls_in(race.node) if call_name(x) == 'result' and isinstance(x.func, ast.Attribute)]
     ck.floor('R-C11-LOSER.result', len(res), 1)
@@ -176,6 +179,20 @@ def run(eng: Engine, ck: Check):
     ok = len(dcall) == 1 and len(icall) == 1 and any(isinstance(a, ast.ExceptHandler) for a in ancestors(icall[0])) and \
         not any(isinstance(a, ast.ExceptHandler) for a in ancestors(dcall[0]))
     ck.ob('R-C11-ERRMAP', fb, fb.node, 'fallback: direct first, indirect in the failure handler of the direct attempt', ok, '', construct='fallback order')
+    # every failure class of an attempt is a NetworkError (so that the NetworkError handlers of the fallback and of connect-back cover it)
+    escm = eng.escape()
+    import sa.cfg as cfgm
+
+    def non_network(fn: FuncInfo) -> list[str]:
+        return sorted(t for t in escm.of(fn) if t == '*' or 'NetworkError' not in cfgm.exc_ancestors(t))
+    for q_ in ('DataConnection.connect', 'PeerConnection.connect'):
+        f_ = eng.func(CONN, q_)
+        ck.ob('R-C11-ERRMAP', f_, f_.node, f'{q_}: every way a connect can fail leaves as a NetworkError (ConnectionFailedError), so the attempt\'s callers '
+              'treat it as "this path failed"', not non_network(f_), f'classes that can escape and are not NetworkErrors: {non_network(f_)} '
+              '(e.g. OverflowError for a port above 65535 bypasses `except NetworkError`: no fallback to the indirect path, no CannotConnect report)',
+              construct=f'{q_} escape set')
+    f_ = eng.func(NET, 'Network._make_direct_connection')
+    ck.ob('R-C11-ERRMAP', f_, f_.node, 'the direct attempt fails only with NetworkErrors', not non_network(f_), f'{non_network(f_)}', construct='direct attempt escape set')
     cr = eng.cfg(race)
     final_raise = [n for n in walk_local(race.node) if isinstance(n, ast.Raise) and n.exc is not None and 'PeerConnectionError' in unparse(n.exc)]
     implicit = cr.find_path([cr.entry], lambda n: n.kind == 'exit_return', avoid=lambda n: isinstance(n.ast, ast.Return))
